@@ -190,3 +190,16 @@ def ctor_of(n):
     if k == "Struct":
         return n["res"].get("def")
     return None
+
+
+def str_lits(n, crate, depth=0):
+    """string literals in a subtree, looking through named constants / statics of the crate (`NAMES.contains(&x)`)"""
+    out = []
+    for x in walk(n):
+        if kind(x) == "Lit" and x.get("lk") == "str":
+            out.append(x["v"])
+        elif kind(x) == "Path" and x.get("res", {}).get("dk") in ("Const", "Static", "AssocConst") and depth < 3:
+            st = getattr(crate, "statics", {}).get(x["res"].get("def"))
+            if st is not None and st.get("body") is not None:
+                out += str_lits(st["body"], crate, depth + 1)
+    return out
